@@ -67,7 +67,7 @@ pub const EDGE_NUMS: [&str; 28] = [
     "0.0",
     "100",
 ];
-pub const STRS: [&str; 9] = ["", "a", "ab", "abc", "b", "é", "日本", "aé", "x y"];
+pub const STRS: [&str; 12] = ["", "a", "ab", "abc", "b", "é", "日本", "aé", "x y", "2", "0.5", "-3"];
 
 #[derive(Clone, Debug, Default)]
 pub struct SemCtx {
@@ -146,6 +146,10 @@ pub fn gen_context(src: &mut Src, cfg: &SemCfg) -> SemCtx {
         let t = *src.choose(&[Ty::Num, Ty::Bool, Ty::Num, Ty::Str, Ty::List]);
         let v = gen_value(src, cfg, t, 0);
         c.bindings.insert(FUNC_NAMES[i].to_string(), Binding::Func(i as u32, v));
+    }
+    // a context function that always returns an error (only where statements are generated)
+    if cfg.assignments && src.chance(1, 4) {
+        c.bindings.insert("boom".to_string(), Binding::Func(crate::model::FAILING_FUNC, V::None));
     }
     c
 }
@@ -473,8 +477,6 @@ fn observable(src: &mut Src, cfg: &SemCfg, sc: &SemCtx, ty: Ty, d: usize) -> R {
     }
 }
 
-/// does the tree contain an assignment whose target is bound to a context function, or an
-/// observable under an assignment with a non-name target (both outside what the statements pin)
 pub fn count_nodes(r: &R) -> usize {
     1 + match r {
         R::Call(_, a) | R::List(a) | R::Stmts(a) => a.iter().map(count_nodes).sum(),
